@@ -66,6 +66,10 @@ pub struct Scenario {
     /// request goes to an already connected peer, so no connection-open timeout is involved)
     #[serde(default)]
     pub bound_ms: Option<u64>,
+    /// judge the C04 clause lifted to the connection as well: a response whose send was reported complete
+    /// must arrive (only for scripts without injected faults, see ReqResp!MonFailEv)
+    #[serde(default)]
+    pub c04: bool,
 }
 fn d_keep() -> u64 {
     5000
@@ -88,6 +92,9 @@ pub struct NodeSpec {
     /// protocol name suffix; nodes with different suffixes do not share a protocol
     #[serde(default)]
     pub proto: Option<String>,
+    /// keep-alive timeout of this node (default: the scenario's)
+    #[serde(default)]
+    pub keep_alive_ms: Option<u64>,
 }
 
 #[derive(Deserialize, Clone, Debug)]
@@ -123,6 +130,9 @@ pub struct ReqSpec {
     pub cut_after: i64,
     #[serde(default, rename = "try")]
     pub try_: bool,
+    /// the responder answers with send_response_with_feedback and records what the feedback says
+    #[serde(default)]
+    pub fb: bool,
 }
 
 #[derive(Deserialize, Clone, Debug)]
@@ -252,7 +262,7 @@ pub fn build_request(r: &ReqSpec) -> Vec<u8> {
     if r.size >= HDR {
         v.extend_from_slice(b"VQ");
         v.extend_from_slice(&r.k.to_le_bytes());
-        v.push(pol_code(&r.pol));
+        v.push(pol_code(&r.pol) | if r.fb { 0x80 } else { 0 });
         v.extend_from_slice(&(r.rsize as u32).to_le_bytes());
         v.extend_from_slice(&(r.rdelay as u32).to_le_bytes());
         v.extend_from_slice(&(r.cut_after as i32).to_le_bytes());
@@ -265,6 +275,7 @@ pub fn build_request(r: &ReqSpec) -> Vec<u8> {
 
 struct Parsed {
     k: i64,
+    fb: bool,
     pol: u8,
     rsize: usize,
     rdelay: u64,
@@ -276,13 +287,14 @@ fn parse_request(b: &[u8]) -> Parsed {
         let u32at = |i: usize| u32::from_le_bytes([b[i], b[i + 1], b[i + 2], b[i + 3]]);
         Parsed {
             k: u32at(2) as i64,
-            pol: b[6],
+            fb: b[6] & 0x80 != 0,
+            pol: b[6] & 0x7f,
             rsize: u32at(7) as usize,
             rdelay: u32at(11) as u64,
             cut_after: u32at(15) as i32 as i64,
         }
     } else {
-        Parsed { k: -1, pol: 0, rsize: 12, rdelay: 0, cut_after: 0 }
+        Parsed { k: -1, fb: false, pol: 0, rsize: 12, rdelay: 0, cut_after: 0 }
     }
 }
 
@@ -428,7 +440,7 @@ pub async fn run_network(sc: Scenario) -> NetResult {
     };
     let quic = tr == "quic";
     let mut silent_udp: Vec<tokio::net::UdpSocket> = Vec::new();
-    log.ev(0, "d", json!({"e": "reset", "id": sc.id, "seed": sc.seed, "src": sc.src, "maxc": maxc, "transport": tr,
+    log.ev(0, "d", json!({"e": "reset", "id": sc.id, "seed": sc.seed, "src": sc.src, "maxc": maxc, "transport": tr, "c04": sc.c04,
         "nodes": sc.nodes.iter().map(|s| json!({"kind": if s.kind.is_empty() { "node" } else { s.kind.as_str() },
             "max_out": s.max_out.map(|x| x as i64).unwrap_or(-1), "max_in": s.max_in.map(|x| x as i64).unwrap_or(-1)})).collect::<Vec<_>>(),
         "links": sc.links.iter().map(|l| json!({"from": l.from, "to": l.to, "via": l.via})).collect::<Vec<_>>(),
@@ -488,7 +500,7 @@ pub async fn run_network(sc: Scenario) -> NetResult {
         let mut cb = cb
             .with_request_response_protocol(rr)
             .with_executor(exec.clone())
-            .with_keep_alive_timeout(Duration::from_millis(sc.keep_alive_ms));
+            .with_keep_alive_timeout(Duration::from_millis(ns.keep_alive_ms.unwrap_or(sc.keep_alive_ms)));
         if ns.max_out.is_some() || ns.max_in.is_some() {
             cb = cb.with_connection_limits(
                 ConnectionLimitsConfig::default()
@@ -820,7 +832,9 @@ async fn manager_task(net: Arc<Net>, node: usize, mut lp: Litep2p, mut rx: mpsc:
 // ------------------------------------------------------------------------------- user task
 
 enum Act {
-    Answer { irid: i64, k: i64, rsize: usize },
+    Answer { irid: i64, k: i64, rsize: usize, fb: bool },
+    /// the feedback channel of send_response_with_feedback resolved
+    Sent { irid: i64, k: i64, ok: bool },
     Reject { irid: i64, k: i64 },
 }
 
@@ -899,7 +913,14 @@ async fn user_task(net: Arc<Net>, node: usize, h: RequestResponseHandle, mut rx:
                     break;
                 }
                 match act {
-                    Act::Answer { irid, k, rsize } => u.answer(irid, k, rsize),
+                    Act::Answer { irid, k, rsize, fb } => {
+                        if let Some(f) = u.answer(irid, k, rsize, fb) {
+                            delayed.push(f);
+                        }
+                    }
+                    Act::Sent { irid, k, ok } => {
+                        net.log.ev(node, "u", json!({"e": "sent", "o": node, "irid": irid, "n": k, "ok": ok}));
+                    }
                     Act::Reject { irid, k } => u.reject(irid, k),
                 }
             }
@@ -953,13 +974,20 @@ impl User {
         self.net.settle.notify_waiters();
     }
 
-    fn answer(&mut self, irid: i64, k: i64, rsize: usize) {
-        let Some(rid) = self.inbound.remove(&irid) else { return };
+    fn answer(&mut self, irid: i64, k: i64, rsize: usize, fb: bool) -> Option<std::pin::Pin<Box<dyn std::future::Future<Output = Act> + Send>>> {
+        let rid = self.inbound.remove(&irid)?;
         let tag = if k >= 0 { k as u32 } else { irid as u32 };
         let payload = build_response(tag, self.node, rsize);
-        self.net.log.ev(self.node, "u", json!({"e": "answer", "o": self.node, "irid": irid, "n": k, "h": hash(&payload), "len": payload.len()}));
+        self.net.log.ev(self.node, "u", json!({"e": "answer", "o": self.node, "irid": irid, "n": k, "h": hash(&payload), "len": payload.len(), "fb": fb}));
         self.net.count("answers");
-        self.h.send_response(rid, payload);
+        if fb {
+            let (tx, rx) = futures::channel::oneshot::channel();
+            self.h.send_response_with_feedback(rid, payload, tx);
+            Some(Box::pin(async move { Act::Sent { irid, k, ok: rx.await.is_ok() } }))
+        } else {
+            self.h.send_response(rid, payload);
+            None
+        }
     }
 
     fn reject(&mut self, irid: i64, k: i64) {
@@ -998,13 +1026,16 @@ impl User {
                             }
                         }
                         if p.rdelay == 0 {
-                            self.answer(irid, p.k, rsize);
+                            if let Some(f) = self.answer(irid, p.k, rsize, p.fb) {
+                                delayed.push(f);
+                            }
                         } else {
                             let d = p.rdelay;
                             let k = p.k;
+                            let fb = p.fb;
                             delayed.push(Box::pin(async move {
                                 tokio::time::sleep(Duration::from_millis(d)).await;
-                                Act::Answer { irid, k, rsize }
+                                Act::Answer { irid, k, rsize, fb }
                             }));
                         }
                     }
